@@ -16,7 +16,11 @@ from pandera.backends.pandas.error_formatters import (
     reshape_failure_cases,
 )
 from pandera.backends.utils import convert_uniquesettings
-from pandera.config import ValidationScope
+from pandera.config import (
+    ValidationDepth,
+    ValidationScope,
+    get_config_context,
+)
 from pandera.engines import pandas_engine
 from pandera.errors import (
     ParserError,
@@ -566,6 +570,12 @@ class DataFrameSchemaBackend(PandasSchemaBackend):
                     )
                     errors_in_order.append(ordered_error)
 
+        if (
+            get_config_context().validation_depth
+            == ValidationDepth.DATA_ONLY
+        ):
+            # strictness and column order are schema-level constraints
+            errors_in_order = []
         if len(errors_in_order) == 1:
             raise errors_in_order[0]
         if errors_in_order:
